@@ -38,6 +38,14 @@ def ofOption {α} : Option α → Outcome α
   | some a => .ok a
   | none => .undef
 
+/-- outcome of an arithmetic step whose exact result is not representable: an error if the
+    implementation reports an overflow for certain (checked arithmetic, fix of F6), otherwise outside
+    the modelled domain (silent rounding, F17) -/
+def inexact {α} (overflow : Bool) : Outcome α := if overflow then .err else .undef
+
+theorem inexact_ne_ok {α} (b : Bool) (a : α) : (inexact b : Outcome α) ≠ .ok a := by
+  unfold inexact; split <;> simp
+
 theorem bind_ok {α β} (x : Outcome α) (f : α → Outcome β) (b : β) :
     x.bind f = .ok b ↔ ∃ a, x = .ok a ∧ f a = .ok b := by
   cases x <;> simp [bind]
